@@ -95,14 +95,84 @@ def Statement_binop_spec : Prop :=
     (∀ t c, abs (gXor xs inA ys inB r) t c ↔ (((A t a ∧ ¬ B t b) ∨ (B t b ∧ ¬ A t a)) ∧ c = r)) ∧
     Inv (gUnion xs ys r) ∧ Inv (gDiff xs inB r) ∧ Inv (gInter inA ys r) ∧ Inv (gXor xs inA ys inB r)
 
-/-- iteration under mutation (default store): for every history before the generator starts and every
-    schedule of mutations, candidate loads and `next` steps, nothing raises and every yielded triple
+/-- iteration under mutation (default store): for every history (store-level and `Graph`-level calls) before
+    the generator starts and every schedule of such mutations, candidate loads and `next` steps, nothing raises and every yielded triple
     matched the pattern and was in the graph in one of the states since the generator began -/
 def Statement_iter_sound : Prop :=
-  ∀ (pre : List Op) (pat : Pat) (g : Nat) (evs : List Ev),
-    schedRaises (Mem.init.run pre) (Iter.start (Mem.init.run pre) pat g) evs = false ∧
-    ∀ y ∈ yields [Mem.init.run pre] (Mem.init.run pre) (Iter.start (Mem.init.run pre) pat g) evs,
+  ∀ (pre : List StOp) (pat : Pat) (g : Nat) (evs : List Ev),
+    schedRaises (Mem.init.stRun pre) (Iter.start (Mem.init.stRun pre) pat g) evs = false ∧
+    ∀ y ∈ yields [Mem.init.stRun pre] (Mem.init.stRun pre) (Iter.start (Mem.init.stRun pre) pat g) evs,
       pat.matches y.1 = true ∧ ∃ m' ∈ y.2, abs m' y.1 g
+
+/-! ### Statements: the `Memory` store API itself (what C02, C10, C13, C18, C20 assume of the store)
+
+  Specification = a pair `(Q, K)`: `Q` the set of (triple, graph) pairs, `K` the set of registered
+  graphs.  It is the abstraction C02 uses for `Memory` (`RV.C02.Mem`: `qs` read as a set = `Q`, `allc` read
+  as a set = `K`), restated here with sets instead of duplicate-free lists. -/
+
+structure QK where
+  Q : QSet
+  K : Nat → Prop
+
+def QK.empty : QK := ⟨QSet.empty, fun _ => False⟩
+
+/-- the graphs registered by a `Graph`-level operation (every `Memory.add` it performs registers its context) -/
+def KSpec.step (Q : QSet) (K : Nat → Prop) : Op → (Nat → Prop)
+  | .add _ g => fun k => K k ∨ k = g
+  | .addN g qs => fun k => K k ∨ (k = g ∧ ∃ t, (t, g, true) ∈ qs)
+  | .remove _ _ => K
+  | .set _ g => fun k => K k ∨ k = g
+  | .iadd g ts => fun k => K k ∨ (k = g ∧ ∃ t, t ∈ ts)
+  | .iaddG g h => fun k => K k ∨ (k = g ∧ ∃ t, Q t h)
+  | .isub _ _ => K
+  | .isubG _ _ => K
+
+/-- `add(t, c)`: `Q ∪ {(t,c)}`, `K ∪ {c}`;  `remove(pat, ctx|None)`: the matching pairs of graph `ctx` (of every
+    graph for `None`) leave `Q`, `K` unchanged (an emptied graph stays registered);  `add_graph(k)`: `K ∪ {k}`;
+    `remove_graph(k)`: all pairs of `k` leave `Q`, `K \ {k}` -/
+def QK.step (S : QK) : StOp → QK
+  | .add t0 c => ⟨fun t g => S.Q t g ∨ (t = t0 ∧ g = c), fun k => S.K k ∨ k = c⟩
+  | .remove pat ctx => ⟨fun t g => S.Q t g ∧ ¬ (pat.matches t = true ∧ (ctx = none ∨ ctx = some g)), S.K⟩
+  | .addGraph k0 => ⟨S.Q, fun k => S.K k ∨ k = k0⟩
+  | .removeGraph k0 => ⟨fun t g => S.Q t g ∧ g ≠ k0, fun k => S.K k ∧ k ≠ k0⟩
+  | .graph op => ⟨Spec.step S.Q op, KSpec.step S.Q S.K op⟩
+
+def QK.run (S : QK) (ops : List StOp) : QK := ops.foldl QK.step S
+
+/-- the triples visible through `context` (`none` = `None` = every graph) -/
+def QK.sees (S : QK) (ctx : Option Nat) (t : Triple) : Prop := ∃ g, S.Q t g ∧ (ctx = none ∨ ctx = some g)
+
+/-- every answer of the store API agrees with `(Q, K)`; no duplicates, no exception -/
+structure StoreObsAgree (m : Mem) (S : QK) : Prop where
+  no_raise : m.err = false ∧ ∀ pat, triplesRaises m pat = false
+  /-- `store.triples(pattern, context)`, all eight shapes, `context` a graph or `None`: the distinct matching
+      triples visible through the context … -/
+  triples : ∀ (pat : Pat) (ctx : Option Nat),
+    (RV.C01.triples m pat ctx).Nodup ∧
+      ∀ t, t ∈ RV.C01.triples m pat ctx ↔ (S.sees ctx t ∧ pat.matches t = true)
+  /-- … each yielded with exactly the graphs it is asserted in (`__contexts(triple)`) -/
+  triple_ctxs : ∀ (pat : Pat) (ctx : Option Nat) (e : Triple × List Nat), e ∈ m.triplesC pat ctx →
+    e.1 ∈ RV.C01.triples m pat ctx ∧ e.2.Nodup ∧ ∀ k, k ∈ e.2 ↔ S.Q e.1 k
+  /-- `store.__len__(context)` = number of triples visible through the context -/
+  len : ∀ (ctx : Option Nat) (l : List Triple), l.Nodup → (∀ t, t ∈ l ↔ S.sees ctx t) → m.len ctx = l.length
+  /-- `store.contexts()` = the registered graphs -/
+  contexts_all : (m.contexts (none, none, none)).Nodup ∧ ∀ k, k ∈ m.contexts (none, none, none) ↔ S.K k
+  /-- `store.contexts(t)` = the graphs `t` is asserted in -/
+  contexts_of : ∀ (s p o : Nat),
+    (m.contexts (some s, some p, some o)).Nodup ∧ ∀ k, k ∈ m.contexts (some s, some p, some o) ↔ S.Q (s, p, o) k
+  /-- `store.contexts(pattern)` with an unbound position (but not all): nothing (`KeyError` caught) -/
+  contexts_partial : ∀ (s p o : Option Nat), ¬ (s = none ∧ p = none ∧ o = none) →
+    ¬ (s.isSome = true ∧ p.isSome = true ∧ o.isSome = true) → m.contexts (s, p, o) = []
+
+/-- `memory_refines_quadset`: for every finite history of store-level calls (`add`, `remove` with a graph or
+    `None`, `add_graph`, `remove_graph`) freely mixed with `Graph`-level operations, the `Memory` model
+    (indexes, context compression, `__contextTriples`, `__all_contexts`) represents exactly the pair
+    `(Q, K)` the history implies, and every observable answer equals the set-theoretic one -/
+def Statement_memory_refines_quadset : Prop :=
+  ∀ (ops : List StOp),
+    (∀ t g, abs (Mem.init.stRun ops) t g ↔ (QK.run QK.empty ops).Q t g) ∧
+    (∀ k, k ∈ (Mem.init.stRun ops).allc ↔ (QK.run QK.empty ops).K k) ∧
+    StoreObsAgree (Mem.init.stRun ops) (QK.run QK.empty ops)
 
 /-! ### Statements: `SimpleMemory` -/
 
@@ -223,10 +293,109 @@ theorem binop_spec : Statement_binop_spec := by
 
 theorem iter_sound : Statement_iter_sound := by
   intro pre pat g evs
-  have hI := run_inv pre _ inv_init
+  have hI := stRun_inv pre _ inv_init
   refine ⟨sched_no_raise evs _ _ hI, ?_⟩
-  exact yields_sound pat g evs [Mem.init.run pre] (Mem.init.run pre) _ hI (by simp)
+  exact yields_sound pat g evs [Mem.init.stRun pre] (Mem.init.stRun pre) _ hI (by simp)
     (start_pat _ _ _) (start_g _ _ _) (pendingOk_start hI pat g)
+
+/-- simulation relation between the store model and `(Q, K)` -/
+structure StSim (m : Mem) (S : QK) : Prop where
+  inv : Inv m
+  nd : m.allc.Nodup
+  q : ∀ t g, abs m t g ↔ S.Q t g
+  k : ∀ k, k ∈ m.allc ↔ S.K k
+
+theorem stSim_step {m : Mem} {S : QK} (h : StSim m S) (op : StOp) : StSim (m.stStep op) (S.step op) := by
+  have hI := h.inv
+  refine ⟨stStep_inv hI op, nodup_allc_stStep hI h.nd op, ?_, ?_⟩
+  · have hq := h.q
+    rw [abs_eq_InG] at hq ⊢
+    intro t g
+    cases op with
+    | add t0 c => simp only [Mem.stStep, QK.step, (add_spec hI t0 c).2, hq]
+    | remove pat ctx => simp only [Mem.stStep, QK.step, (remove_ctx_spec hI pat ctx).2, hq]
+    | addGraph k0 => exact hq t g
+    | removeGraph k0 => simp only [Mem.stStep, QK.step, (removeGraph_spec hI k0).2.1, hq]
+    | graph op => exact (refine_step m S.Q op hI h.q).2 t g
+  · have hk := h.k
+    have hq := h.q
+    rw [abs_eq_InG] at hq
+    intro k
+    cases op with
+    | add t0 c => simp only [Mem.stStep, QK.step, allc_add, mem_sinsert, hk]; exact or_comm
+    | remove pat ctx => simp only [Mem.stStep, QK.step, allc_remove, hk]
+    | addGraph k0 => simp only [Mem.stStep, QK.step, Mem.addGraph, Mem.register, mem_sinsert, hk]; exact or_comm
+    | removeGraph k0 =>
+      simp only [Mem.stStep, QK.step, (removeGraph_spec hI k0).2.2, mem_sremove, hk]; exact and_comm
+    | graph op =>
+      cases op with
+      | add t0 g => simp only [Mem.stStep, Mem.step, QK.step, KSpec.step, allc_add, mem_sinsert, hk]; exact or_comm
+      | addN g qs => simp only [Mem.stStep, Mem.step, QK.step, KSpec.step, mem_allc_addN, hk]
+      | remove pat g => simp only [Mem.stStep, Mem.step, QK.step, KSpec.step, allc_remove, hk]
+      | set t0 g => simp only [Mem.stStep, Mem.step, QK.step, KSpec.step, allc_set, mem_sinsert, hk]; exact or_comm
+      | iadd g ts => simp only [Mem.stStep, Mem.step, QK.step, KSpec.step, mem_allc_iadd, hk]
+      | iaddG g h' =>
+        simp only [Mem.stStep, Mem.step, QK.step, KSpec.step, mem_allc_iadd, hk, mem_graph hI, hq]
+      | isub g ts => simp only [Mem.stStep, Mem.step, QK.step, KSpec.step, allc_isub, hk]
+      | isubG g h' => simp only [Mem.stStep, Mem.step, QK.step, KSpec.step, allc_isub, hk]
+
+theorem stSim_run : ∀ (ops : List StOp) (m : Mem) (S : QK), StSim m S → StSim (m.stRun ops) (S.run ops) := by
+  intro ops
+  induction ops with
+  | nil => intro m S h; exact h
+  | cons op r ih => intro m S h; exact ih _ _ (stSim_step h op)
+
+theorem storeObsAgree_of {m : Mem} {S : QK} (h : StSim m S) : StoreObsAgree m S := by
+  have hI := h.inv
+  have hq := h.q
+  rw [abs_eq_InG] at hq
+  have hsees : ∀ (ctx : Option Nat) t, (t ∈ m.spo ∧ ctx ∈ getCtxs m t) ↔ S.sees ctx t := by
+    intro ctx t
+    cases ctx with
+    | none =>
+      rw [union_iff hI]
+      simp only [QK.sees, true_or, and_true, hq]
+    | some g =>
+      simp only [QK.sees, reduceCtorEq, false_or, Option.some.injEq]
+      constructor
+      · intro hin; exact ⟨g, (hq t g).1 hin, rfl⟩
+      · rintro ⟨g', h1, h2⟩; subst h2; exact (hq t g).2 h1
+  have hkeys : ∀ t, t ∈ m.spo → (ctxKeys m t).Nodup ∧ ∀ k, k ∈ ctxKeys m t ↔ S.Q t k := by
+    intro t ht
+    refine ⟨nodup_keysOf (hI.ctxs_nd t), fun k => ?_⟩
+    rw [mem_ctxKeys, ← hq]
+    exact ⟨fun hc => ⟨ht, hc⟩, fun hc => hc.2⟩
+  refine ⟨⟨hI.err, triplesRaises_false hI⟩, ?_, ?_, ?_, ⟨h.nd, h.k⟩, ?_, ?_⟩
+  · intro pat ctx
+    exact ⟨nodup_triples hI pat ctx, fun t => by rw [mem_triples_ctx hI, hsees]⟩
+  · intro pat ctx e he
+    simp only [Mem.triplesC, List.mem_map] at he
+    obtain ⟨t, ht, rfl⟩ := he
+    have hin := ((mem_triples_ctx hI pat ctx t).1 ht).1.1
+    exact ⟨ht, hkeys t hin⟩
+  · intro ctx l hnd hl
+    show (RV.C01.triples m allPat ctx).length = l.length
+    apply List.Perm.length_eq
+    rw [List.perm_ext_iff_of_nodup (nodup_triples hI _ _) hnd]
+    intro t
+    rw [mem_triples_ctx hI, hsees, hl]
+    simp [allPat, Pat.matches, matchPos]
+  · intro s p o
+    simp only [Mem.contexts]
+    by_cases hin : (s, p, o) ∈ m.spo
+    · simp only [hin, if_true]; exact hkeys _ hin
+    · simp only [hin, if_false, List.nodup_nil, List.not_mem_nil, false_iff, true_and]
+      intro k hk; exact hin ((hq _ _).2 hk).1
+  · intro s p o h1 h2
+    cases s <;> cases p <;> cases o <;> simp_all [Mem.contexts]
+
+theorem memory_refines_quadset : Statement_memory_refines_quadset := by
+  intro ops
+  have h0 : StSim Mem.init QK.empty :=
+    ⟨inv_init, by simp [Mem.init], fun t g => by simp [abs, Mem.init, QK.empty, QSet.empty],
+      fun k => by simp [Mem.init, QK.empty]⟩
+  have h := stSim_run ops _ _ h0
+  exact ⟨h.q, h.k, storeObsAgree_of h⟩
 
 theorem simple_refine_run : ∀ (ops : List SOp) (m : SMem) (S : TSet), SInv m → (∀ t, t ∈ m.spo ↔ S t) →
     SInv (m.run ops) ∧ ∀ t, t ∈ (m.run ops).spo ↔ SSpec.run S ops t := by
@@ -272,9 +441,20 @@ example : (Mem.init.run exOps).dflt = some [some 0, none] ∧ (Mem.init.run exOp
     (Mem.init.run exOps).graph 0 = [(4, 2, 0)] ∧ (Mem.init.run exOps).graph 1 = [(1, 2, 3), (4, 2, 9)] ∧
     triples (Mem.init.run exOps) (none, some 2, none) (some 1) = [(1, 2, 3), (4, 2, 9)] := by decide
 
+/-- a store-level history: shared triple, `remove(…, None)`, an emptied graph that stays registered,
+    `remove_graph`, a graph registered by `add_graph` only -/
+def exStOps : List StOp :=
+  [.add (1, 2, 3) 0, .add (1, 2, 3) 1, .add (4, 2, 3) 1, .graph (.add (5, 2, 3) 2), .addGraph 7,
+   .remove (some 4, none, none) none, .remove (none, none, none) (some 2), .removeGraph 0]
+
+example : (Mem.init.stRun exStOps).contexts (none, none, none) = [1, 2, 7] ∧
+    (Mem.init.stRun exStOps).triplesC (none, some 2, none) none = [((1, 2, 3), [1])] ∧
+    (Mem.init.stRun exStOps).contexts (some 1, some 2, some 3) = [1] ∧
+    (Mem.init.stRun exStOps).len none = 1 ∧ (Mem.init.stRun exStOps).err = false := by decide
+
 /-- a schedule on which the generator really yields between mutations -/
 def exEvs : List Ev :=
-  [.load [(1, 2, 3), (1, 2, 4)], .next, .mutate (.remove (some 1, some 2, some 4) 1), .next]
+  [.load [(1, 2, 3), (1, 2, 4)], .next, .mutate (.remove (some 1, some 2, some 4) none), .next]
 
 example : (yields [Mem.init.run [.add (1, 2, 3) 0, .add (1, 2, 4) 1]] (Mem.init.run [.add (1, 2, 3) 0, .add (1, 2, 4) 1])
     (Iter.start (Mem.init.run [.add (1, 2, 3) 0, .add (1, 2, 4) 1]) (some 1, some 2, none) 0) exEvs).map (·.1)
